@@ -1112,12 +1112,17 @@ namespace awkward {
       }
 
       if (convert_shallow) {
-        if (ListOffsetArray64* raw1 = dynamic_cast<ListOffsetArray64*>(out.get())) {
-          out = raw1->toRegularArray();
+        // an outer list without rows reduces to an empty list: then the
+        // answers are not all of one length and stay variable-length lists
+        try {
+          if (ListOffsetArray64* raw1 = dynamic_cast<ListOffsetArray64*>(out.get())) {
+            out = raw1->toRegularArray();
+          }
+          else if (ListArray64* raw1 = dynamic_cast<ListArray64*>(out.get())) {
+            out = raw1->toRegularArray();
+          }
         }
-        else if (ListArray64* raw1 = dynamic_cast<ListArray64*>(out.get())) {
-          out = raw1->toRegularArray();
-        }
+        catch (std::invalid_argument&) { }
       }
     }
 
